@@ -218,3 +218,9 @@ func derefType(t types.Type) types.Type {
 	}
 	return t
 }
+
+// isCtxParam: a context.Context / sdk.Context parameter (carries no message content).
+func isCtxParam(p *ssa.Parameter) bool {
+	t := p.Type().String()
+	return strings.HasSuffix(t, "context.Context") || strings.HasSuffix(t, "types.Context")
+}
